@@ -16,6 +16,28 @@ PY
 # full .vo build; a failure here is reported by the individual checks, so do not abort setup
 (cd coq && timeout 3000 make -j16 -k >$V/.build/setup_make.log 2>&1) || echo "setup: coq build incomplete (see .build/setup_make.log)"
 # hygiene: no axioms / admits / disabled checks in the development
-if grep -rnE '\b(Admitted|admit|Axiom|Parameter|Conjecture|Unset Guard|bypass_check|Admit Obligations)\b' coq/Lib coq/Model coq/Proofs coq/Props --include=*.v; then
-  echo "setup: forbidden declaration found"; exit 1; fi
+if ! python3 - <<'PY'
+import re, sys, glob
+# Coq comments (nested) are removed first: the words below are forbidden as DECLARATIONS / TACTICS, not in prose
+def strip(src):
+    out=[]; depth=0; i=0; instr=False
+    while i < len(src):
+        c=src[i]
+        if depth==0 and c=='"': instr = not instr; out.append(c); i+=1; continue
+        if not instr and src.startswith('(*', i): depth+=1; i+=2; continue
+        if not instr and depth>0 and src.startswith('*)', i): depth-=1; i+=2; continue
+        if depth==0: out.append(c)
+        elif c=='\n': out.append('\n')
+        i+=1
+    return ''.join(out)
+pat=re.compile(r'\b(Admitted|admit|Axiom|Axioms|Parameter|Parameters|Conjecture|Conjectures|Unset\s+Guard|Unset\s+Positivity|Unset\s+Universe|bypass_check|Admit\s+Obligations|give_up)\b')
+bad=0
+for d in ('coq/Lib','coq/Model','coq/Proofs','coq/Props'):
+    for f in sorted(glob.glob(d+'/**/*.v', recursive=True)):
+        for n,line in enumerate(strip(open(f).read()).split('\n'),1):
+            if pat.search(line):
+                print(f'{f}:{n}: {line.strip()[:160]}'); bad+=1
+sys.exit(1 if bad else 0)
+PY
+then echo "setup: forbidden declaration found"; exit 1; fi
 echo setup done
